@@ -1,5 +1,5 @@
 \* Ws stand-alone (property level): the environment may produce any event whose guard holds; the
-\* invariants are what the guards establish.  3 instances over 2 ids, SK = 1 value per Source, both
+\* invariants are what the guards establish.  2 instances of 1 id, SK = 1 value per Source, both
 \* subprotocols, with and without InitFunc.  Measured: see notes/C11.md.
 SPECIFICATION WsSpec
 CONSTANTS
